@@ -114,9 +114,19 @@ func init() {
 			case 7:
 				kind = "no-target"
 				pairs = pairs[:2]
-			case 8:
+			case 8, 9, 10, 11:
+				// an output file from an earlier run, longer than anything written now (history: transpile, shorten, transpile again)
 				kind = "existing-output"
-				fs = append(fs, "f"+hx(filepath.Join(out, "prog.sh"))+"."+hx("old"))
+				stem := filepath.Base(in)
+				if k := strings.LastIndex(stem, "."); k >= 0 {
+					stem = stem[:k]
+				}
+				old := strings.Repeat("echo stale line from an earlier run\n", 150)
+				for _, ext := range []string{"sh", "bat"} {
+					if p := filepath.Join(out, stem+"."+ext); p != in && r.Intn(4) != 0 {
+						fs = append(fs, "f"+hx(p)+"."+hx(old))
+					}
+				}
 			}
 			r.Shuffle(len(pairs), func(a, b int) { pairs[a], pairs[b] = pairs[b], pairs[a] })
 			argv := []string{}
